@@ -72,6 +72,11 @@ func KeyUnwrap(block cipher.Block, ciphertext []byte) ([]byte, error) {
 		return nil, errors.New("square/go-jose: key wrap input must be 8 byte blocks")
 	}
 
+	// RFC 3394: the integrity check value plus at least two 64-bit blocks of key data.
+	if len(ciphertext) < 24 {
+		return nil, errors.New("square/go-jose: key wrap input too short")
+	}
+
 	n := (len(ciphertext) / 8) - 1
 	r := make([][]byte, n)
 
